@@ -93,11 +93,21 @@ def elem_atoms(interp: A.Interp, av: A.AV) -> tuple[frozenset, bool]:
 
 
 def short(atom) -> str:
+    atom = A.base_atom(atom)
     return f"group `{atom[2]}`" if atom and atom[0] == "g" else str(atom)
 
 
+def bases(atoms) -> set:
+    return {A.base_atom(a) for a in atoms}
+
+
+def looked_up(atoms) -> set:
+    """Atoms that were read out of a mapping with computed keys (`aliases[x]`, `aliases.get(x, x)`, `.values()`)."""
+    return {a[1] for a in atoms if a and a[0] == "v"}
+
+
 def has_unknown(atoms) -> bool:
-    return any(a and a[0] == "?" for a in atoms)
+    return any(a and A.base_atom(a)[0] == "?" for a in atoms)
 
 
 def _class_has(items, ch: str) -> bool:
@@ -285,6 +295,9 @@ def run(repo: Repo) -> Result:
         if isinstance(n, (A.Seq, A.Dict, A.Rec)):
             all_atoms |= interp.flat_prov(A.ref(n))
     all_atoms |= K | V | Aset
+    all_atoms = bases(all_atoms)
+    K_via, V_via, A_direct = looked_up(K), looked_up(V), {a for a in Aset if a and a[0] != "v"}
+    K, V, Aset = bases(K), bases(V), frozenset(bases(Aset))
     site_of: dict = {}
     for s in interp.sites.values():
         site_of.setdefault(s.pattern.key, s)
@@ -405,7 +418,7 @@ def run(repo: Repo) -> Result:
     flow("C06.R1", f"{parse_key}::arrow tail is the dependor", tails, K, "the text bound on the tail side of an arrow becomes a key of ParsedDependencies.dependencies", "text bound on the tail side of an arrow (the dependor) does not become a key of the returned relation - arrows are read backwards or dropped", parse_where)
     flow("C06.R1", f"{parse_key}::arrow head is the dependee", heads, V, "the text bound on the head side of an arrow becomes an element of the value sets of ParsedDependencies.dependencies", "text bound on the head side of an arrow (the dependee) does not become an element of the value sets of the returned relation - arrows are read backwards or dropped", parse_where)
     # ---- R3 alias map and component set
-    alias_maps = [n for n in interp.nodes.values() if isinstance(n, A.Dict) and set(aliases) & n.k.prov and set(names) & n.v.prov]
+    alias_maps = [n for n in interp.nodes.values() if isinstance(n, A.Dict) and set(aliases) & bases(n.k.prov) and set(names) & bases(n.v.prov)]
     aliased_names: list[tuple] = []
     for lp in lps:
         ag, ng = lp.groups("alias"), lp.groups("name")
@@ -422,12 +435,15 @@ def run(repo: Repo) -> Result:
             res.undecide("C06.R3", f"{parse_key}::alias map", "no dict keyed by the alias group with component names as values is recognised", parse_where)
         else:
             res.add("C06.R3", f"{parse_key}::alias map", ok, "a dict maps the text of the alias group to the declared component name" if ok else "no dict maps declared aliases to component names: aliases are never resolved", parse_where, kind="flow")
-        flow("C06.R3", f"{parse_key}::dependor resolved", aliased_names, K, "the dependor of every arrow can be replaced by the component name its alias was declared for", "keys of the returned relation never come out of the alias map (dependors are stored without alias resolution)", parse_where)
-        flow("C06.R3", f"{parse_key}::every dependee resolved", aliased_names, V, "every dependee can be replaced by the component name its alias was declared for", "elements of the value sets of the returned relation never come out of the alias map (dependees are stored without alias resolution)", parse_where)
+        flow("C06.R3", f"{parse_key}::dependor resolved", aliased_names, K_via, "the dependor of every arrow can be replaced by the component name its alias was declared for", "keys of the returned relation never come out of the alias map (dependors are stored without alias resolution)", parse_where)
+        flow("C06.R3", f"{parse_key}::every dependee resolved", aliased_names, V_via, "every dependee can be replaced by the component name its alias was declared for", "elements of the value sets of the returned relation never come out of the alias map (dependees are stored without alias resolution)", parse_where)
     elif not res.violations:
         res.undecide("C06.R3", f"{parse_key}::alias map", "no group of the declaration pattern binds the alias of `[N] as AL`", parse_where)
-    for want, what in ((names, "declared components"), (tails, "dependors"), (heads, "dependees")):
-        flow("C06.R3", f"{parse_key}::{what} in the component set", want, set(Aset), f"{what} are part of the returned component set", f"the {what} do not reach ParsedDependencies.all_modules: a component that only occurs as {what[:-1]} is missing (no rule is generated for it)", parse_where)
+    other_maps = [n for n in interp.nodes.values() if isinstance(n, A.Dict) and n not in alias_maps and set(names) & bases(n.v.prov)]
+    # names that only arrive through the alias map are not "the declared components"
+    declared_have = set(Aset) if other_maps else A_direct
+    for want, have, what in ((names, declared_have, "declared components"), (tails, set(Aset), "dependors"), (heads, set(Aset), "dependees")):
+        flow("C06.R3", f"{parse_key}::{what} in the component set", want, have, f"{what} are part of the returned component set", f"the {what} do not reach ParsedDependencies.all_modules: a component that only occurs as {what[:-1]} is missing (no rule is generated for it)", parse_where)
     # aliases are not components: the text of the alias group must not reach the result (unless the analysis itself merged name and alias)
     if aliases:
         leaked = [a for a in aliases if a in (K | V | set(Aset))]
@@ -484,7 +500,7 @@ def mixes(n, left: set, right: set) -> bool:
         slots = [n.k, n.v]
     elif isinstance(n, A.Rec):
         slots = list(n.fields.values())
-    return any(left & s.prov and right & s.prov for s in slots)
+    return any(left & bases(s.prov) and right & bases(s.prov) for s in slots)
 
 
 def interp_seen(interp: A.Interp) -> set[str]:
@@ -504,7 +520,7 @@ def interp_seen(interp: A.Interp) -> set[str]:
 
 # -------------------------------------------------------------------------------------------------------------------- R2
 def check_merges(repo: Repo, res: Result, interp: A.Interp, tails: set, final_dicts: list, parse_key: str, parse_where: str) -> None:
-    dep_dicts = {n for n in interp.nodes.values() if isinstance(n, A.Dict) and tails & n.k.prov}
+    dep_dicts = {n for n in interp.nodes.values() if isinstance(n, A.Dict) and tails & bases(n.k.prov)}
     dep_dicts |= set(final_dicts)
     events = [e for e in interp.events.values() if e.dicts & dep_dicts]
     per_dict: dict = {}
@@ -561,8 +577,8 @@ def check_records(repo: Repo, res: Result, interp: A.Interp, aliases: set, names
             for r in av.refs:
                 if not isinstance(r, A.Rec):
                     continue
-                alias_fields = [f for f, v in r.fields.items() if aliases & v.prov]
-                name_fields = [f for f, v in r.fields.items() if names & v.prov]
+                alias_fields = [f for f, v in r.fields.items() if aliases & bases(v.prov)]
+                name_fields = [f for f, v in r.fields.items() if names & bases(v.prov)]
                 if not alias_fields or not name_fields:
                     continue
                 holders += 1
